@@ -5,8 +5,11 @@ import (
 	"go/ast"
 	"go/constant"
 	"go/token"
+	"go/types"
 	"math"
 	"os"
+	"sort"
+	"strings"
 
 	"golang.org/x/tools/go/packages"
 )
@@ -102,8 +105,89 @@ func init() {
 		for _, b := range []string{"ALLOW_FREE_TN_ANNOUNCE", "HAVE_ANONYMOUS", "USE_POST_ENTROPY", "QUERY_ARTICLE_URL", "USE_AID_URL"} {
 			lf.raw(fmt.Sprintf("def %s : Bool := %s\n", b, postVarBool(pt, b)))
 		}
+		// which configuration variables (assigned in ptttype/config.go: config()) each decision site reads
+		cfgVars := postConfigVars(pt)
+		pp := l.load("ptt")
+		lf.raw("\n/-! configuration variables (left-hand sides of ptttype/config.go) read by each decision site -/\n")
+		lf.raw("def siteConfig : List (String × List String) := [")
+		for i, fn := range []string{"checkBoardAnonymous", "writeHeaderAuthor", "isTnAllowed", "WriteFile", "GetWebURL", "addSimpleSignature", "DoPostArticle"} {
+			if i > 0 {
+				lf.raw(",")
+			}
+			vs := postFuncConfigReads(pp, fn, cfgVars)
+			qs := make([]string, len(vs))
+			for k, v := range vs {
+				qs[k] = fmt.Sprintf("%q", v)
+			}
+			lf.raw(fmt.Sprintf("\n  (%q, [%s])", fn, strings.Join(qs, ", ")))
+		}
+		lf.raw("]\n")
 		lf.write(out)
 	})
+}
+
+// postConfigVars: the package variables assigned inside ptttype.config().
+func postConfigVars(p *packages.Package) map[string]bool {
+	out := map[string]bool{}
+	for _, f := range p.Syntax {
+		for _, d := range f.Decls {
+			fd, ok := d.(*ast.FuncDecl)
+			if !ok || fd.Recv != nil || fd.Name.Name != "config" || fd.Body == nil {
+				continue
+			}
+			ast.Inspect(fd.Body, func(n ast.Node) bool {
+				as, ok := n.(*ast.AssignStmt)
+				if !ok {
+					return true
+				}
+				for _, lhs := range as.Lhs {
+					if id, ok := lhs.(*ast.Ident); ok {
+						if v, ok := p.TypesInfo.Uses[id].(*types.Var); ok && v.Parent() == p.Types.Scope() {
+							out[v.Name()] = true
+						}
+					}
+				}
+				return true
+			})
+		}
+	}
+	if len(out) == 0 {
+		fatal("ptttype.config(): no configuration variables found")
+	}
+	return out
+}
+
+// postFuncConfigReads: sorted names of the configuration variables a function of package ptt mentions.
+func postFuncConfigReads(p *packages.Package, name string, cfg map[string]bool) []string {
+	seen := map[string]bool{}
+	found := false
+	for _, f := range p.Syntax {
+		for _, d := range f.Decls {
+			fd, ok := d.(*ast.FuncDecl)
+			if !ok || fd.Recv != nil || fd.Name.Name != name || fd.Body == nil {
+				continue
+			}
+			found = true
+			ast.Inspect(fd.Body, func(n ast.Node) bool {
+				if id, ok := n.(*ast.Ident); ok {
+					if v, ok := p.TypesInfo.Uses[id].(*types.Var); ok && v.Pkg() != nil && v.Pkg().Path() == modPath+"/ptttype" &&
+						v.Parent() == v.Pkg().Scope() && cfg[v.Name()] {
+						seen[v.Name()] = true
+					}
+				}
+				return true
+			})
+		}
+	}
+	if !found {
+		fatal("ptt.%s: no such function", name)
+	}
+	out := make([]string, 0, len(seen))
+	for k := range seen {
+		out = append(out, k)
+	}
+	sort.Strings(out)
+	return out
 }
 
 func postExprString(p *packages.Package, e ast.Expr) string {
